@@ -56,6 +56,8 @@ def load_repo():
     if _loaded:
         return
     sys.dont_write_bytecode = True
+    # locks created by the code under test (also at import time) must be simulation-aware
+    sched.install_sim_locks()
     import pygopherd  # noqa
     import pygopherd.initialization as initialization
     import pygopherd.server as server
@@ -106,6 +108,57 @@ class ModState:
 
     def __init__(self):
         self.snap = self.capture()
+        self.funcs = self._functions()
+
+    @staticmethod
+    def _functions():
+        """Every function / method defined in the repository's modules (mutable default
+        arguments and lru_caches are process state too)."""
+        out = []
+        seen = set()
+
+        def add(f):
+            f = getattr(f, "__func__", f)
+            if isinstance(f, types.FunctionType) and id(f) not in seen:
+                seen.add(id(f))
+                out.append(f)
+            elif hasattr(f, "cache_clear") and id(f) not in seen:
+                seen.add(id(f))
+                out.append(f)
+
+        for m in _repo_modules():
+            for v in list(vars(m).values()):
+                if isinstance(v, type) and getattr(v, "__module__", "") == m.__name__:
+                    for cv in list(vars(v).values()):
+                        add(cv)
+                else:
+                    if getattr(v, "__module__", None) == m.__name__ or hasattr(v, "cache_clear"):
+                        add(v)
+        return out
+
+    def reset_functions(self):
+        """Give every function fresh copies of its mutable default arguments and empty memo caches,
+        as a freshly started process would have.  Functions that appear later (a changed tree) are
+        picked up lazily."""
+        if not hasattr(self, "_fdefaults"):
+            self._fdefaults = {}
+            for f in self.funcs:
+                if hasattr(f, "cache_clear"):
+                    continue
+                d = f.__defaults__
+                kd = f.__kwdefaults__
+                if (d and any(not isinstance(x, _ATOMIC) for x in d)) or \
+                        (kd and any(not isinstance(x, _ATOMIC) for x in kd.values())):
+                    self._fdefaults[f] = (copy.deepcopy(d), copy.deepcopy(kd))
+        for f in self.funcs:
+            if hasattr(f, "cache_clear"):
+                try:
+                    f.cache_clear()
+                except Exception:
+                    pass
+        for f, (d, kd) in self._fdefaults.items():
+            f.__defaults__ = copy.deepcopy(d)
+            f.__kwdefaults__ = copy.deepcopy(kd)
 
     @staticmethod
     def _copy(v):
@@ -491,6 +544,7 @@ class SimRun:
         self._gc_was = gc.isenabled()
         gc.disable()
         _modstate.restore()
+        _modstate.reset_functions()
         self.sim.install()
         self.fs.install()
         self._installed = True
